@@ -255,7 +255,7 @@ OWN = {
     "C12": {"langs", "gscon", "pivotgrowth", "info:="},
     "C13": {"gsrfs", "gstrs", "X:=", "B*="},
     "C14": {"queryspace", "total_needed:=", "pthread_create", "gstrf"},
-    "C06": {"pivotgrowth", "gstrs", "gsrfs", "gscon", "langs", "X:=", "B*="},
+    "C06": {"pivotgrowth", "gstrs", "gsrfs", "gscon", "langs", "X:=", "B*=", "info:="},
     "C08": {"A-store", "LUperm-store", "gstrf", "colorder", "gsequ", "laqgs", "equed:="},
     "C17": {"StatAlloc", "StatFree", "destroy_AC", "destroy_AA_store", "free"},
 }
